@@ -134,6 +134,16 @@ def run(ctx):
                 found = True
                 ctx.report('roundtrip', 'modSwitchFrom(modSwitchTo(%d,%d),%d)=%s' % (s[4], s[2], s[2], o), {'mu': s[4], 'M': s[2], 'got': o})
     # the value 2^31 of the quantifier is not an int32: bit pattern -2^31
+    # every rounding boundary (all k) of a sample of moduli, large odd ones above all: the interval width is a floored quotient and its error grows
+    # with k, so the last boundaries of a large odd M are the first to go when precision is lost
+    rng = ctx.rng
+    bms = sorted({24057, 32767, 32765, 30001, 16385} | {rng.randrange(12000, 16384) * 2 + 1 for _ in range(8 if not thorough else 200)} | {rng.randrange(3, 20000) for _ in range(6 if not thorough else 100)})
+    for M, ob in zip(bms, vlib.run_lines(exe, ['msfbound %d' % M for M in bms], timeout=3600)):
+        ctx.count(('msfbound', M)); ctx.evaluations += 5 * M
+        v = ob.split()
+        if ob.startswith('CRASH') or int(v[0]) != 0:
+            ctx.report('msf-boundary', 'M=%d: %s of the 5*M phases around the rounding boundaries (k + 1/2)/M are switched to an integer that is not nearest (or approxPhase is not its encoding); first: phase %s' % (M, v[0] if len(v) > 1 else '?', v[1] if len(v) > 1 else ob[:40]),
+                       {'case': 'msfbound %d' % M, 'impl': ob[:100]})
     o = vlib.run_lines(exe, ['msf 12345 -2147483648'])[0]
     ctx.count('msf M=2^31')
     if o.startswith('CRASH') or not near_ok(12345, 2**31, int(o) if o.lstrip('-').isdigit() else -1):
